@@ -42,6 +42,7 @@ type historyChecks struct {
 	m1  bool // C01: well-formedness of every genome an action produced or touched
 	c05 bool // C05: exact before/after relation of each mutator
 	c04 bool // C04: inheritance relation of each crossover between pool members
+	c06 bool // C06: duplicates of genomes reached by the history are exact and independent
 	c03 bool // C03: innovation ledger over the whole history, identical innovations within a generation
 }
 
@@ -55,6 +56,7 @@ func runHistory(c HistoryCase, chk historyChecks, rec *Rec) error {
 	pool := []*genetics.Genome{start}
 	pop := populationFor(c.Start)
 	nextId := 1000
+	poolSnaps := map[*genetics.Genome]GenomeSpec{}
 	var led *histLedger
 	if chk.c03 {
 		led = newHistLedger()
@@ -87,6 +89,27 @@ func runHistory(c HistoryCase, chk historyChecks, rec *Rec) error {
 				}
 				if d := DiffSpec(before, Snapshot(dup)); d != "" {
 					rec.Class("duplicate differs from its source (C06)")
+				}
+			}
+			if chk.c06 {
+				if d := DiffSpec(before, Snapshot(dup)); d != "" {
+					return fmt.Errorf("%s: the duplicate differs from its source: %s\nsource %s", where, d, jsonStr(before))
+				}
+				if d := DiffSpec(before, Snapshot(subject)); d != "" {
+					return fmt.Errorf("%s: duplicating changed the source: %s", where, d)
+				}
+				if err := sharedState(subject, dup); err != nil {
+					return fmt.Errorf("%s: %v", where, err)
+				}
+				dis, rc, _ := specFeatures(before)
+				if dis > 0 {
+					rec.Class("disabled gene")
+				}
+				if rc > 0 {
+					rec.Class("recurrent gene")
+				}
+				if dis > 0 || rc > 0 {
+					rec.NonTrivial(hashOf(len(before.Nodes), len(before.Genes), dis, rc))
 				}
 			}
 			if led != nil {
@@ -133,6 +156,10 @@ func runHistory(c HistoryCase, chk historyChecks, rec *Rec) error {
 					return err
 				}
 			}
+			if chk.c06 {
+				// whether a crossover leaves its parents alone is C04's business: re-base their snapshots
+				poolSnaps[subject], poolSnaps[dad] = Snapshot(subject), Snapshot(dad)
+			}
 			classifyCrossover(b1, b2, rec)
 			pool = addToPool(pool, child, op.A+op.B)
 		default:
@@ -157,6 +184,22 @@ func runHistory(c HistoryCase, chk historyChecks, rec *Rec) error {
 				if err := checkMutation(before, after, op, ok, hadRecord, rec); err != nil {
 					return fmt.Errorf("%s (result %v): %v\nbefore %s\nafter  %s", where, ok, err, jsonStr(before), jsonStr(after))
 				}
+			}
+			if chk.c06 {
+				// behavioural independence: no other member of the pool (sources and copies among them) may change
+				for j, other := range pool {
+					if other == subject {
+						continue
+					}
+					now := Snapshot(other)
+					if old, had := poolSnaps[other]; had {
+						if d := DiffSpec(old, now); d != "" {
+							return fmt.Errorf("%s on pool member %d changed pool member %d, a different genome: %s", where, op.A%len(pool), j, d)
+						}
+					}
+					poolSnaps[other] = now
+				}
+				poolSnaps[subject] = after
 			}
 			if led != nil {
 				if err := led.mutation(before, after, op.Kind, ok, rec); err != nil {
